@@ -106,10 +106,14 @@ def _dsdesc(draw, dtype, maskable=True):
 @st.composite
 def _rhs(draw, op, chain):
     nonzero = op == 'div'
-    kind = draw(st.sampled_from(['pool', 'pool', 'fresh', 'arr', 'arr', 'int', 'float', 'float']
+    kind = draw(st.sampled_from(['pool', 'pool', 'fresh', 'arr', 'arr', 'barr', 'int', 'float', 'float']
                                 if chain else
-                                ['fresh', 'fresh', 'arr', 'arr', 'int', 'int', 'float', 'float',
+                                ['fresh', 'fresh', 'arr', 'arr', 'barr', 'int', 'int', 'float', 'float',
                                  'pool']))
+    if kind == 'barr':      # ndarray of another shape that numpy broadcasts against the dataset
+        return {'kind': 'barr', 'vals': draw(_vals(nonzero)),
+                'mode': draw(st.sampled_from(['lead', 'lead', 'ones', 'one'])),
+                'ax': draw(st.integers(0, 3))}
     if kind == 'pool':
         return {'kind': 'pool', 'i': draw(st.integers(0, 7))}
     if kind == 'fresh':
@@ -329,6 +333,18 @@ class _Run:
         if rkind == 'arr':
             arr = _tile(rhs['vals'], shape)
             return 'array', arr, None
+        if rkind == 'barr':
+            arr = _tile(rhs['vals'], shape)
+            if not shape or arr.size == 0 or np.ma.isMaskedArray(lhs.ds.value):
+                return 'array', arr, None
+            if rhs['mode'] == 'lead':        # one more leading dimension: the result would be larger
+                return 'array-bcast-up', np.stack([arr, arr[..., ::-1] if arr.ndim else arr]), None
+            if rhs['mode'] == 'one':
+                return 'array-bcast-down', arr.reshape(-1)[:1].copy(), None
+            axis = rhs['ax'] % len(shape)
+            if shape[axis] > 1:
+                return 'array-bcast-down', np.take(arr, [0], axis=axis), None
+            return 'array', arr, None
         if rkind == 'int':
             return 'number', int(rhs['c']), None
         return 'number', float(rhs['c']), None
@@ -344,6 +360,11 @@ class _Run:
         elif rclass == 'array':
             rval, rmask = _cells(other)
             rerr, remask = None, rmask
+        elif rclass == 'array-bcast-down':
+            rval, rmask = _cells(np.broadcast_to(other, np.shape(lhs.ds.value)))
+            rerr, remask = None, rmask
+        elif rclass == 'array-bcast-up':
+            return self.binop_bcast_up(num, kind, lhs, other)
         else:
             rval, rmask = [other] * ncell, [False] * ncell
             rerr, remask = None, rmask
@@ -356,10 +377,10 @@ class _Run:
         if rclass == 'number' and other < 0:
             self.labels.add('rhs=neg-number')
             self.nt_neg = True
-        if rclass == 'array' and any(x < 0 for x in rval):
+        if rclass in ('array', 'array-bcast-down') and any(x < 0 for x in rval):
             self.labels.add('rhs=neg-array-cell')
             self.nt_neg = True
-        if rclass in ('array', 'dataset') and ncell >= 2:
+        if rclass in ('array', 'array-bcast-down', 'dataset') and ncell >= 2:
             self.nt_multi = True
         if rclass == 'dataset' and other is lhs.ds:
             self.labels.add('rhs=self')
@@ -368,7 +389,7 @@ class _Run:
         extra = []
         if rlive is not None and rlive not in self.pool:
             extra = [rlive]
-        if rclass == 'array':
+        if rclass in ('array', 'array-bcast-down'):
             self.aux.append([f'ndarray operand of step {num}', other, other.tobytes()])
         feat = f'op={opname}/rhs={rclass}'
         self.pool.extend(extra)      # a fresh right operand stays alive from now on
@@ -384,7 +405,7 @@ class _Run:
         self.common_result_checks(num, opname, lhs, res, _bins_of(lhs.snap))
         # operands untouched
         self.operands_unchanged(num, opname, feat)
-        if rclass == 'array':
+        if rclass in ('array', 'array-bcast-down'):
             self.aux.pop()       # only referenced by this step
         # numbers
         if np.shape(res.value) != np.shape(lhs.ds.value) or \
@@ -396,6 +417,39 @@ class _Run:
             self.compare(num, kind, rclass, feat, res,
                          (lval, lmask, lerr, lemask), (rval, rmask, rerr, remask))
         self.pool.append(_Live(res, f'result of step {num} ({opname})'))
+
+    def binop_bcast_up(self, num, kind, lhs, other):
+        """ndarray operand with one more leading dimension: the plain array operation gives
+        a value larger than the dataset.  Refusing the operands (ValueError) is fine; a result,
+        if any, must be a well-formed dataset and the operands must be untouched."""
+        if kind == 'div' and np.any(other == 0):
+            kind = 'mul'
+        feat = f'op={kind}/rhs=array-bcast-up'
+        self.labels.update({f'op={kind}', 'rhs=array-bcast-up'})
+        self.aux.append([f'ndarray operand of step {num}', other, other.tobytes()])
+        try:
+            res = BINOPS[kind](lhs.ds, other)
+        except ValueError:
+            self.labels.add('bcast-up-refused')
+            res = None
+        except Exception as exc:
+            self.out.failures.append(exc_failure('C08/op_raises', exc, feat))
+            res = None
+        self.operands_unchanged(num, kind, feat)
+        self.aux.pop()
+        if res is None:
+            return
+        self.labels.add('bcast-up-result')
+        if not isinstance(res, Dataset):
+            self.fail('result_type', f'C08/result_type/{feat}', f'step {num}: {type(res)}')
+            return
+        for why in dsutil.wellformed(res):
+            self.fail('wellformed', f'C08/wellformed/{feat}', f'step {num}: {why}')
+            return
+        if np.shape(res.value) != np.shape(res.error):
+            self.fail('shape', f'C08/shape/{feat}',
+                      f'step {num}: value shape {np.shape(res.value)} vs error shape '
+                      f'{np.shape(res.error)}')
 
     def compare(self, num, kind, rclass, feat, res, left, right):
         lval, lmask, lerr, lemask = left
